@@ -397,6 +397,9 @@ func genModel(r *rng, k genKnobs) *Model {
 	if r.chance(6) {
 		applyDialect(r, m, inDSLGen)
 	}
+	if r.chance(5) {
+		m.Present = true
+	}
 	return m
 }
 
